@@ -17,13 +17,26 @@
  *    arbitrary and the real strlen (r = n) satisfies the model for vg_j2 = n, so every real execution is
  *    covered by an unguarded instance.  This is the true strlen restricted to what one instantiation of
  *    its quantified postcondition gives: an over-approximation of the man page.
+ *    Units whose SAFETY obligations (not only postconditions) depend on the true length define
+ *    VERIF_STRLEN_N (an expression: the declared exact length n of the one string strlen/strnlen is applied
+ *    to).  The model then restricts the GHOST to the deciding instance: assume(vg_j2 == min(r, n)).  This
+ *    never removes a real execution: vg_j2 is a free ghost input (no harness constrains it), the unit's
+ *    precondition holds for vg_j2 = n for every string of exact length n, and the real result r = n passes
+ *    both assumptions with vg_j2 = n.  It only discards ghost choices, i.e. it is the guard VLEN_GUARD(n)
+ *    applied to every obligation behind the call.  (Strings with an earlier NUL are ALSO admitted by the
+ *    precondition instance vg_j2 = n and get r = n: extra behaviours, an over-approximation.)
  *  - VERIF_STRLEN_LOOP (B units, run under --unwind): the plain byte loop, exact.
  */
 #ifndef VERIF_ENV_STRHELP_H
 #define VERIF_ENV_STRHELP_H
 #ifdef VERIF_OWN_STRLEN
 size_t vg_len_ret, vg_j2;   /* vg_j2: ghost instantiation point of the strlen minimality facts */
-# define VLEN_GUARD(n) (vg_j2 == ((vg_len_ret) < (n) ? (vg_len_ret) : (n)))
+/* units whose loop annotations (annot/strings.c.ann may only name env.h ghosts) carry the exactness fact
+ * use env.h's vg_j as the instantiation point: #define VERIF_STRLEN_GHOST vg_j */
+# ifndef VERIF_STRLEN_GHOST
+#  define VERIF_STRLEN_GHOST vg_j2
+# endif
+# define VLEN_GUARD(n) (VERIF_STRLEN_GHOST == ((vg_len_ret) < (n) ? (vg_len_ret) : (n)))
 # ifdef VERIF_STRLEN_LOOP
 size_t strlen(const char *s)
 {
@@ -46,7 +59,10 @@ size_t strlen(const char *s)
     size_t r = nondet_size_t();
     __CPROVER_assume(r < VREMAIN(s));
     __CPROVER_assume(s[r] == 0);
-    __CPROVER_assume(!(vg_j2 < r) || s[vg_j2] != 0);
+    __CPROVER_assume(!(VERIF_STRLEN_GHOST < r) || s[VERIF_STRLEN_GHOST] != 0);
+#  ifdef VERIF_STRLEN_N
+    __CPROVER_assume(VERIF_STRLEN_GHOST == (r < (size_t) (VERIF_STRLEN_N) ? r : (size_t) (VERIF_STRLEN_N)));
+#  endif
     vg_len_ret = r;
     return r;
 }
@@ -57,7 +73,10 @@ size_t strnlen(const char *s, size_t maxlen)
     __CPROVER_assume(r <= maxlen);
     __CPROVER_assume(r <= VREMAIN(s));
     __CPROVER_assume(r == maxlen || (r < VREMAIN(s) && s[r] == 0));
-    __CPROVER_assume(!(vg_j2 < r) || s[vg_j2] != 0);
+    __CPROVER_assume(!(VERIF_STRLEN_GHOST < r) || s[VERIF_STRLEN_GHOST] != 0);
+#  ifdef VERIF_STRLEN_N
+    __CPROVER_assume(VERIF_STRLEN_GHOST == (r < (size_t) (VERIF_STRLEN_N) ? r : (size_t) (VERIF_STRLEN_N)));
+#  endif
     vg_len_ret = r;
     return r;
 }
